@@ -47,6 +47,8 @@ func checkC01(c *core.Ctx, r *core.Report) {
 		"(7) TSWIDTH — the timestamp block uses the width its type byte announces on both sides, and the type is chosen by the matching bound of the block's time span; " +
 		"(8) BOUND — a value length that is narrowed to the 16-bit TLV length field is bounded by a dominating comparison (a longer value is rejected, not truncated); " +
 		"(9) OWNSTR — a zero-copy string made from bytes the function does not own (utils.UnsafeByteSliceToString of a read buffer) is not kept: not stored into a field, element or global, not inserted into a map, not returned or sent, also through repository callees (depth 3); sites accepted by reading are listed with their reason; " +
+		"(11) NARROWINDEX — no index, slice bound or widened operand anywhere in the repository is a product or left shift computed in an 8/16-bit unsigned type from a non-constant value (a record number times an element width wraps); " +
+		"(12) MIDBLOCK — the backfill of a column that first appears in the middle of a block is governed only by the column's absence from the block and a non-zero record count (not by the type of its first value); " +
 		"(10) OPENSEG — the per-block bookkeeping of the open segment (column set, block summaries, block metadata) is extended on every call of updateUnrotatedBlockInfo, not only where the segment's record is created."
 	r.NotCovered = "value equality of the round trip, alignment of record i across columns as an outcome, dictionary cut-over at the cardinality limit, block/segment boundary handling, JSON flattening semantics (names, escapes), number/string consolidation results, zstd and checksum layers (C18)"
 
@@ -59,6 +61,8 @@ func checkC01(c *core.Ctx, r *core.Report) {
 	c01Timestamps(c, r)
 	c01LenBound(c, r)
 	c01OwnStrings(c, r)
+	c01NarrowIndex(c, r)
+	c01MidBlockBackfill(c, r)
 	c01OpenSegmentBookkeeping(c, r)
 }
 
@@ -494,7 +498,7 @@ func c01TagArms(c *core.Ctx, r *core.Report) []tagArm {
 	r.Floor("TAGWIDTH", "switches over a TLV tag byte", nSw, 14)
 	r.Floor("TAGWIDTH", "tag arms", nArms, 120)
 	r.Floor("TAGWIDTH", "length assignments in tag arms", nWidth, 60)
-	r.Floor("TAGWIDTH", "value byte ranges in tag arms", nSlice, 15)
+	r.Floor("TAGWIDTH", "value byte ranges in tag arms", nSlice, 10)
 	r.Floor("TAGWIDTH", "little-endian decoder calls in tag arms", nDecode, 25)
 	return arms
 }
@@ -727,7 +731,7 @@ func c01EmitHandle(c *core.Ctx, r *core.Report, arms []tagArm) {
 			r.Check(handled[fn][t], "HANDLE", construct, emitted[t], "the decoder has an arm for this emitted tag", fmt.Sprintf("ingest emits %s (at %s) but %s has no arm for it: the value is unreadable (bad encoding / dropped) on this path", t, emitted[t], fn))
 		}
 	}
-	r.Floor("HANDLE", "decoders examined", nDec, 8)
+	r.Floor("HANDLE", "decoders examined", nDec, 6)
 	// the tags handed to the dictionary encoder are dictionary tags: every checkAddDictEnc call in doLogEventFilling sits in an arm of dictTags
 	nDictCalls := 0
 	for _, a := range arms {
@@ -1033,8 +1037,8 @@ func c01Account(c *core.Ctx, r *core.Report) {
 			}
 		}
 	}
-	r.Floor("ACCOUNT", "appends to a column buffer", nSites, 45)
-	r.Floor("ACCOUNT", "append groups", nGroups, 40)
+	r.Floor("ACCOUNT", "appends to a column buffer", nSites, 30)
+	r.Floor("ACCOUNT", "append groups", nGroups, 28)
 }
 
 // cbufAppend: st is `<recv>.cbuf.Append*(x)`; returns the receiver text and the number of bytes.
